@@ -260,6 +260,21 @@ impl Target {
         Target::Dense { mu, prec, cov }
     }
 
+    /// Correlated Gaussian (condition number `cond` of the correlation part) with unequal coordinate scales:
+    /// covariance D C D with D log-uniform over `scale_range` (neither a diagonal nor an equal-scale target).
+    pub fn scaled_correlated(rng: &mut HRng, dim: usize, cond: f64, scale_range: f64) -> Target {
+        let Target::Dense { mu, mut prec, mut cov } = Target::correlated(rng, dim, cond) else { unreachable!() };
+        let s: Vec<f64> = (0..dim).map(|_| rng.log_range(1.0 / scale_range.sqrt(), scale_range.sqrt())).collect();
+        for i in 0..dim {
+            for j in 0..dim {
+                cov[i][j] *= s[i] * s[j];
+                prec[i][j] /= s[i] * s[j];
+            }
+        }
+        let mu = mu.iter().zip(&s).map(|(m, s)| m * s).collect();
+        Target::Dense { mu, prec, cov }
+    }
+
     /// AR(1) Gaussian with correlation rho.
     pub fn ar1(dim: usize, rho: f64) -> Target {
         let mut cov = crate::util::mat_zeros(dim, dim);
@@ -373,15 +388,17 @@ pub struct Logged {
     pub log: SharedLog,
     /// When false, `update_transformation` keeps the flow fixed (id unchanged).
     pub flow_adapts: bool,
+    /// The target is evaluated at `x - shift` in every coordinate (0 unless the model drew it from its RNG).
+    pub shift: f64,
 }
 
 impl Logged {
     pub fn new(target: Target, keep_records: bool) -> Self {
-        Logged { target: Arc::new(target), log: new_log(keep_records), flow_adapts: true }
+        Logged { target: Arc::new(target), log: new_log(keep_records), flow_adapts: true, shift: 0.0 }
     }
 
     pub fn with_log(target: Arc<Target>, log: SharedLog) -> Self {
-        Logged { target, log, flow_adapts: true }
+        Logged { target, log, flow_adapts: true, shift: 0.0 }
     }
 
     pub fn evals(&self) -> u64 {
@@ -398,7 +415,12 @@ impl Logged {
         if delay > 0 {
             std::thread::sleep(std::time::Duration::from_micros(delay));
         }
-        let mut lp = self.target.eval(x, g);
+        let mut lp = if self.shift == 0.0 {
+            self.target.eval(x, g)
+        } else {
+            let xs: Vec<f64> = x.iter().map(|v| v - self.shift).collect();
+            self.target.eval(&xs, g)
+        };
         let mut result = Ok(());
         match fault {
             None => {}
@@ -591,6 +613,10 @@ pub struct ModelFaults {
     pub init_invalid_chains: Vec<i64>,
     /// The first k initial positions of a chain are NaN, later ones are valid: (chain, k)
     pub init_invalid_first: Vec<(i64, u64)>,
+    /// not faults, model variants: `Model::math` consumes its RNG (location shift of the density per chain) /
+    /// every chain starts from the same point (initial positions = 0)
+    pub math_uses_rng: bool,
+    pub same_start_for_all_chains: bool,
 }
 
 pub struct VModel {
@@ -605,6 +631,9 @@ pub struct VModel {
     pub delays: HashMap<i64, u64>,
     pub init_scale: f64,
     pub init_calls: Mutex<HashMap<i64, u64>>,
+    /// `Model::math` draws a location shift of the density from the RNG it is given (a model whose density depends
+    /// on per-chain randomness, e.g. random features or a data subsample)
+    pub math_uses_rng: bool,
 }
 
 impl VModel {
@@ -618,6 +647,7 @@ impl VModel {
             delays: HashMap::new(),
             init_scale: 1.0,
             init_calls: Mutex::new(HashMap::new()),
+            math_uses_rng: false,
         }
     }
 }
@@ -625,7 +655,7 @@ impl VModel {
 impl Model for VModel {
     type Math<'m> = CpuMath<Logged>;
 
-    fn math<R: rand::Rng + ?Sized>(&self, _rng: &mut R) -> anyhow::Result<CpuMath<Logged>> {
+    fn math<R: rand::Rng + ?Sized>(&self, rng: &mut R) -> anyhow::Result<CpuMath<Logged>> {
         let chain = crate::sched::current_chain();
         if self.faults.math_fail_chains.contains(&chain) {
             anyhow::bail!("injected Model::math failure for chain {chain}");
@@ -638,7 +668,13 @@ impl Model for VModel {
             log.lock().unwrap().delay_us = *d;
         }
         self.logs.lock().unwrap().insert(chain, log.clone());
-        Ok(CpuMath::new(Logged::with_log(self.target.clone(), log)))
+        let mut dens = Logged::with_log(self.target.clone(), log);
+        if self.math_uses_rng {
+            use rand::RngExt;
+            let u: f64 = rng.random();
+            dens.shift = 0.25 * (u - 0.5);
+        }
+        Ok(CpuMath::new(dens))
     }
 
     fn init_position<R: rand::Rng + ?Sized>(
@@ -662,6 +698,12 @@ impl Model for VModel {
         for p in position.iter_mut() {
             let u: f64 = rng.random();
             *p = if invalid { f64::NAN } else { (2.0 * u - 1.0) * self.init_scale };
+        }
+        if self.faults.same_start_for_all_chains && !invalid {
+            // every chain starts from one fixed, generic point
+            for (i, p) in position.iter_mut().enumerate() {
+                *p = 0.37 + 0.11 * (i % 7) as f64;
+            }
         }
         Ok(())
     }
